@@ -129,6 +129,10 @@ KNOWN_PREDICATES = {}
 
 
 def foam_leaf(rng):
+    if rng.random() < 0.04:
+        # a character str.splitlines takes for a line boundary, inside a string (data; the writer quotes it)
+        ch = rng.choice("\x0b\x0c\x1c\x1d\x1e\x85\u2028\u2029")
+        return rng.choice([f"page one{ch}page two", f"a {ch}b", f"x{ch}"])
     while True:
         v = gen.dom_scalar(rng)
         if not (isinstance(v, str) and '"' in v):
